@@ -117,6 +117,8 @@ func applyServiceExtends(ctx context.Context, name string, services map[string]a
 	}
 
 	if base == nil {
+		// the base is declared without content: there is nothing to inherit, and the reference is resolved all the same
+		delete(service, "extends")
 		return service, nil
 	}
 	source := deepClone(base).(map[string]any)
